@@ -1,5 +1,922 @@
-use simkit::Outcome;
-pub const RULE_C13: &str = "todo";
-pub const RULE_C03: &str = "todo";
-pub fn run_c13() -> Outcome { todo!() }
-pub fn run_c03() -> Outcome { todo!() }
+//! E4 `pipeline` — C13 (determinism / schedule independence) and C03 (terminates, never
+//! panics, always renders) on the whole real pipeline:
+//! dump bytes → `Minidump::read` → `process_minidump_with_options` → the four renderings,
+//! with the real `Symbolizer` over a gated scripted supplier or the real `HttpSymbolSupplier`
+//! on the simulated transport.
+
+use crate::common::{draw_delay, draw_exec_config, exec_config_json, Scratch};
+use crate::dumpgen::{self, ModSpec, World, WorldOpts};
+use async_trait::async_trait;
+use breakpad_symbols::{
+    FileError, FileKind, FillSymbolError, FrameSymbolizer, FrameWalker, HttpSymbolSupplier,
+    LocateSymbolsResult, Module, SymbolError, SymbolFile, SymbolStats, SymbolSupplier, Symbolizer,
+};
+use minidump::Minidump;
+use minidump_processor::{ProcessState, ProcessorOptions};
+use minidump_unwind::{PendingSymbolStats, SymbolProvider};
+use reqwest::sim::{BodyEnd, Plan, RequestInfo};
+use serde_json::json;
+use simkit::exec::Gate;
+use simkit::runner::run_sub;
+use simkit::ctx::Tape;
+use simkit::{ch, chance, probe, range, Exec, Outcome, Stop, Violation};
+use std::cell::RefCell;
+use std::collections::{BTreeMap, HashMap};
+use std::io::Write;
+use std::path::PathBuf;
+use std::rc::Rc;
+use std::sync::atomic::{AtomicU64, Ordering};
+use std::sync::Arc;
+use std::time::Duration;
+
+pub const RULE_C13: &str = "Each run draws one world from the tape (arch x86/amd64/arm/arm64, OS, 1-6 modules with shared leaf names and consistent / absent symbol files incl. CFI programs with aliased registers, 1-8 threads (occasionally 31-40, reaching FuturesUnordered) with frame-pointer chains / CFI-walkable / scan-only stacks, exception, thread names, unloaded modules, memory info, handles, Linux text streams incl. /proc/limits with several entries, MemoryList or Memory64List) and one processor option set, then executes the same world 3-6 times, each execution on a fresh thread with its own hash seed and its own schedule: per-module supplier delay (0-3 gates on the simulated clock) or HTTP chunking and latencies, executor policy, spurious-poll probability, 0-2 companion tasks processing the same dump through the same symbolizer. Execution 0 is the plain schedule (everything ready, FIFO, hash seed 0). All executions must render byte-identical JSON, pretty JSON, text and brief text. NON-TRIVIAL iff the world has at least two threads and at least two executions had different decision traces. DISTINCT = distinct (world digest, multiset of execution decision traces) among non-trivial runs.";
+
+pub const RULE_C03: &str = "Each run draws one world as for C13 but with adversarial shapes enabled (cyclic / descending / extreme frame pointers, sp at 0 / 4 / 2^64-1 / outside the stack, stack at the top of the address space, CFI that makes no progress or never reads memory, hostile STACK WIN sizes, short /proc/limits lines, memory-info ranges ending at 2^64-1, exception parameters up to 15, code bytes at the crashing ip) and hostile symbol files (corrupted, random grammar, unterminated), one option set of {stable_basic, stable_all, unstable_all}, an optional storage fault on the serialised dump (torn tail, lost or stale 512/4096-byte sector, bit rot, header bit flip), symbol supply through the gated supplier or the real HTTP supplier with 404/5xx/connect error/reset/clean cut/stall+timeout/corrupt cache entry, and an optional companion task that is cancelled mid-way. Oracles: no panic; executor steps, provider calls and frames per thread within budgets tied to the input size; peak live heap within 256 MiB + 4096 x input bytes per concurrent processing; Ok state always renders as text, brief text, JSON and pretty JSON, the JSON parses, and rendering into a failing writer returns without panicking. NON-TRIVIAL iff the dump was accepted (processing returned a state) and at least one fault (storage, supply, hostile symbols, adversarial shape) was present. DISTINCT = distinct (world digest, fault description, decision trace) among non-trivial runs.";
+
+// ---------------------------------------------------------------------------------------------
+// shared world data (Send: it crosses into sub-execution threads)
+
+#[derive(Clone)]
+pub struct Shared {
+    pub dump: Arc<Vec<u8>>,
+    pub modules: Arc<Vec<ModSpec>>,
+    pub options: u8, // 0 stable_basic, 1 stable_all, 2 unstable_all
+    pub use_http: bool,
+}
+
+fn options_of(i: u8) -> ProcessorOptions<'static> {
+    match i {
+        0 => ProcessorOptions::stable_basic(),
+        1 => ProcessorOptions::stable_all(),
+        _ => ProcessorOptions::unstable_all(),
+    }
+}
+
+// ---------------------------------------------------------------------------------------------
+// suppliers
+
+/// Scripted supplier: answers per code_file after a number of gates opened by simulated-clock
+/// events.  The answer (bytes or NotFound) is fixed by the world; only the timing varies.
+struct GatedSupplier {
+    modules: Arc<Vec<ModSpec>>,
+    /// code_file → number of gates, drawn by the caller from the execution's tape
+    gates: BTreeMap<String, u32>,
+    calls: Arc<AtomicU64>,
+}
+
+#[async_trait]
+impl SymbolSupplier for GatedSupplier {
+    async fn locate_symbols(&self, module: &(dyn Module + Sync)) -> Result<LocateSymbolsResult, SymbolError> {
+        self.calls.fetch_add(1, Ordering::SeqCst);
+        let cf = module.code_file().to_string();
+        let n = self.gates.get(&cf).copied().unwrap_or(0);
+        for _ in 0..n {
+            let g = Gate::new();
+            g.open_after("supplier.gate", crate::common::draw_delay_nz("e4.sup.delay"));
+            g.wait().await;
+        }
+        // several modules may share a code_file leaf but never a full code_file + base; the
+        // world keys symbols by full code_file and debug id
+        let want_id = module.debug_identifier().map(|d| d.breakpad().to_string());
+        for m in self.modules.iter() {
+            if m.code_file == cf && (want_id.is_none() || !m.has_cv || want_id.as_deref() == Some(&m.breakpad_id())) {
+                return match &m.sym {
+                    Some(bytes) => Ok(LocateSymbolsResult {
+                        symbols: SymbolFile::from_bytes(bytes)?,
+                        extra_debug_info: None,
+                    }),
+                    None => Err(SymbolError::NotFound),
+                };
+            }
+        }
+        Err(SymbolError::NotFound)
+    }
+    async fn locate_file(&self, _module: &(dyn Module + Sync), _file_kind: FileKind) -> Result<PathBuf, FileError> {
+        Err(FileError::NotFound)
+    }
+}
+
+/// Counts provider calls and trips the walk budget (a runaway walk shows up here long before
+/// it shows up in memory).
+struct CountingProvider {
+    inner: Symbolizer,
+    walk_calls: AtomicU64,
+    fill_calls: AtomicU64,
+    walk_budget: u64,
+    fill_budget: u64,
+}
+
+#[async_trait]
+impl SymbolProvider for CountingProvider {
+    async fn fill_symbol(&self, module: &(dyn Module + Sync), frame: &mut (dyn FrameSymbolizer + Send)) -> Result<(), FillSymbolError> {
+        let n = self.fill_calls.fetch_add(1, Ordering::SeqCst) + 1;
+        if n > self.fill_budget {
+            simkit::runner::trip("c03.provider_budget", "symbolication was requested more often than 256 x (stack bytes + 64): the walk does not terminate within a budget tied to the input size");
+        }
+        self.inner.fill_symbol(module, frame).await
+    }
+    async fn walk_frame(&self, module: &(dyn Module + Sync), walker: &mut (dyn FrameWalker + Send)) -> Option<()> {
+        let n = self.walk_calls.fetch_add(1, Ordering::SeqCst) + 1;
+        if n > self.walk_budget {
+            simkit::runner::trip("c03.frame_bound", "more CFI walk requests than the sum over threads of (stack bytes + 2) + threads: some thread is walked for more frames than its stack memory has bytes");
+        }
+        self.inner.walk_frame(module, walker).await
+    }
+    async fn get_file_path(&self, module: &(dyn Module + Sync), file_kind: FileKind) -> Result<PathBuf, FileError> {
+        self.inner.get_file_path(module, file_kind).await
+    }
+    fn stats(&self) -> HashMap<String, SymbolStats> {
+        self.inner.stats()
+    }
+    fn pending_stats(&self) -> PendingSymbolStats {
+        self.inner.pending_stats()
+    }
+}
+
+// ---------------------------------------------------------------------------------------------
+// one execution
+
+#[derive(Clone, Debug, PartialEq, Eq)]
+pub struct Renderings {
+    pub status: String,
+    pub json: Vec<u8>,
+    pub json_pretty: Vec<u8>,
+    pub text: Vec<u8>,
+    pub brief: Vec<u8>,
+}
+
+#[derive(Clone, Debug)]
+pub struct ExecOut {
+    pub outputs: Vec<Renderings>, // main task first, then companions
+    pub frames: Vec<usize>,
+    pub stop: String,
+    pub steps: u64,
+    pub peak_bytes: isize,
+    pub fill_calls: u64,
+    pub walk_calls: u64,
+    pub requests: usize,
+    pub render_problem: Option<String>,
+    pub writer_problem: Option<String>,
+    pub json_problem: Option<String>,
+    pub supply_faults: u32,
+    pub cancelled_companion: bool,
+}
+
+struct FailingWriter {
+    fail_at: usize,
+    written: usize,
+    short: bool,
+    calls: u64,
+}
+impl Write for FailingWriter {
+    fn write(&mut self, buf: &[u8]) -> std::io::Result<usize> {
+        self.calls += 1;
+        if self.calls > 50_000_000 {
+            simkit::runner::trip("c03.writer_spin", "rendering into a failing writer keeps calling write without end");
+        }
+        if self.written >= self.fail_at {
+            return Err(std::io::Error::other("injected write failure"));
+        }
+        let room = self.fail_at - self.written;
+        let n = if self.short { buf.len().min(room).min(7).max(1) } else { buf.len().min(room) };
+        self.written += n;
+        Ok(n)
+    }
+    fn flush(&mut self) -> std::io::Result<()> {
+        Ok(())
+    }
+}
+
+fn render(state: &ProcessState) -> Result<Renderings, String> {
+    let mut json = Vec::new();
+    state.print_json(&mut json, false).map_err(|e| format!("print_json failed: {e}"))?;
+    let mut json_pretty = Vec::new();
+    state.print_json(&mut json_pretty, true).map_err(|e| format!("print_json(pretty) failed: {e}"))?;
+    let mut text = Vec::new();
+    state.print(&mut text).map_err(|e| format!("print failed: {e}"))?;
+    let mut brief = Vec::new();
+    state.print_brief(&mut brief).map_err(|e| format!("print_brief failed: {e}"))?;
+    Ok(Renderings {
+        status: "ok".into(),
+        json,
+        json_pretty,
+        text,
+        brief,
+    })
+}
+
+#[derive(Clone, Copy, Debug)]
+pub struct ExecMode {
+    /// C03: supply faults, cancellation of a companion, writer faults.
+    pub faults: bool,
+    pub companions: u32,
+}
+
+/// Runs inside a sub-execution (own thread, own context).  Every decision comes from the
+/// execution's own tape.
+pub fn execute(shared: Shared, mode: ExecMode, stack_budget: u64, nthreads: u64) -> ExecOut {
+    let mut cfg = draw_exec_config(40_000_000);
+    if !mode.faults {
+        // scheduling noise must not turn into a timeout when no fault is being injected
+        cfg.time_pass_never = &["net.deadline"];
+    }
+    let calls = Arc::new(AtomicU64::new(0));
+    let scratch = if shared.use_http { Some(Scratch::new("e4")) } else { None };
+    let mut supply_faults = 0u32;
+    let supplier: Box<dyn FnOnce() -> Symbolizer> = if shared.use_http {
+        probe("e4.http_supplier");
+        let root = scratch.as_ref().unwrap().root.clone();
+        std::fs::create_dir_all(root.join("cache")).unwrap();
+        std::fs::create_dir_all(root.join("tmp")).unwrap();
+        let mods = shared.modules.clone();
+        let faults = mode.faults;
+        // optionally a corrupt cache entry for one module
+        if faults && chance("e4.http.corrupt_cache", 1, 10) {
+            if let Some(rel) = mods.iter().filter_map(|m| m.rel.clone()).next() {
+                let p = root.join("cache").join(rel);
+                let _ = std::fs::create_dir_all(p.parent().unwrap());
+                let _ = std::fs::write(&p, b"MODULE Linux x86 0 x\ngarbage that does not parse\n");
+                supply_faults += 1;
+            }
+        }
+        let fault_counter = Rc::new(RefCell::new(0u32));
+        let fc = fault_counter.clone();
+        reqwest::sim::install(move |info: &RequestInfo| {
+            let path = info.url.split('?').next().unwrap_or("");
+            for m in mods.iter() {
+                let Some(rel) = &m.rel else { continue };
+                let enc = reqwest::Url::parse("http://x/").unwrap().join(rel).map(|u| u.path()[1..].to_string()).unwrap_or_default();
+                if !path.ends_with(&enc) {
+                    continue;
+                }
+                let Some(body) = &m.sym else { return Plan::status(404) };
+                let mut plan = Plan::ok(body.clone());
+                if faults {
+                    match ch("e4.http.fault", 10) {
+                        0 => {
+                            *fc.borrow_mut() += 1;
+                            plan = Plan::status([404u16, 500, 503][ch("e4.http.status", 3) as usize]);
+                        }
+                        1 => {
+                            *fc.borrow_mut() += 1;
+                            plan = Plan::connect_error();
+                        }
+                        2 => {
+                            *fc.borrow_mut() += 1;
+                            let k = range("e4.http.reset_at", 0, body.len() as u64) as usize;
+                            plan = Plan::ok(body[..k].to_vec());
+                            plan.end = BodyEnd::Reset;
+                        }
+                        3 => {
+                            *fc.borrow_mut() += 1;
+                            let k = range("e4.http.cut_at", 0, body.len() as u64) as usize;
+                            plan = Plan::ok(body[..k].to_vec());
+                        }
+                        4 => {
+                            *fc.borrow_mut() += 1;
+                            let k = range("e4.http.stall_at", 0, body.len() as u64) as usize;
+                            plan = Plan::ok(body[..k].to_vec());
+                            plan.end = BodyEnd::Stall;
+                        }
+                        _ => {}
+                    }
+                }
+                plan.head_delay = draw_delay("e4.http.head_delay");
+                let mut sizes = Vec::new();
+                let mut left = plan.body.len();
+                let style = ch("e4.http.chunking", 3);
+                while left > 0 && sizes.len() < 48 {
+                    let s = match style {
+                        0 => left,
+                        1 => 1usize << ch("e4.http.chunk.geo", 16),
+                        _ => range("e4.http.chunk.any", 1, left as u64) as usize,
+                    }
+                    .min(left);
+                    sizes.push(s);
+                    left -= s;
+                }
+                plan.chunk_delays = sizes.iter().map(|_| draw_delay("e4.http.chunk_delay")).collect();
+                plan.chunks = sizes;
+                return plan;
+            }
+            Plan::status(404)
+        });
+        let _ = fault_counter;
+        let cache = root.join("cache");
+        let tmp = root.join("tmp");
+        Box::new(move || {
+            Symbolizer::new(HttpSymbolSupplier::new(
+                vec!["http://symbols.example/".to_string()],
+                cache,
+                tmp,
+                vec![],
+                // without fault injection no latency may change a fetch outcome
+                Duration::from_secs(if faults { 30 } else { 10_000_000 }),
+            ))
+        })
+    } else {
+        let mut gates = BTreeMap::new();
+        let mut slow = 0;
+        for m in shared.modules.iter() {
+            let g = ch("e4.sup.gates", 4);
+            if g > 0 {
+                slow += 1;
+            }
+            gates.insert(m.code_file.clone(), g);
+        }
+        if slow > 0 && nthreads >= 2 {
+            probe("e4.shared_module_slow");
+        }
+        let sup = GatedSupplier {
+            modules: shared.modules.clone(),
+            gates,
+            calls: calls.clone(),
+        };
+        Box::new(move || Symbolizer::new(sup))
+    };
+    let total_stack = stack_budget;
+    let provider = Rc::new(CountingProvider {
+        inner: supplier(),
+        walk_calls: AtomicU64::new(0),
+        fill_calls: AtomicU64::new(0),
+        walk_budget: (1 + mode.companions as u64) * (total_stack + 3 * nthreads + 8),
+        fill_budget: (1 + mode.companions as u64) * 256 * (total_stack + 64 * nthreads + 64),
+    });
+
+    let outputs: Rc<RefCell<Vec<Option<Renderings>>>> = Rc::new(RefCell::new(vec![None; 1 + mode.companions as usize]));
+    let frames: Rc<RefCell<Vec<usize>>> = Rc::new(RefCell::new(Vec::new()));
+    let problems: Rc<RefCell<(Option<String>, Option<String>, Option<String>)>> = Rc::new(RefCell::new((None, None, None)));
+    let writer_plan = if mode.faults && chance("e4.writer_fault", 1, 3) { Some((range("e4.writer.fail_at", 0, 20_000) as usize, chance("e4.writer.short", 1, 2))) } else { None };
+
+    let mut ex = Exec::new(cfg);
+    let mut task_ids = Vec::new();
+    for slot in 0..=mode.companions as usize {
+        let shared = shared.clone();
+        let provider = provider.clone();
+        let outputs = outputs.clone();
+        let frames = frames.clone();
+        let problems = problems.clone();
+        let id = ex.spawn(format!("process{slot}"), async move {
+            let dump = match Minidump::read(shared.dump.as_slice().to_vec()) {
+                Ok(d) => d,
+                Err(e) => {
+                    outputs.borrow_mut()[slot] = Some(Renderings {
+                        status: format!("read-error:{}", e.name()),
+                        json: vec![],
+                        json_pretty: vec![],
+                        text: vec![],
+                        brief: vec![],
+                    });
+                    return;
+                }
+            };
+            let res = minidump_processor::process_minidump_with_options(&dump, &*provider, options_of(shared.options)).await;
+            match res {
+                Ok(state) => {
+                    if slot == 0 {
+                        *frames.borrow_mut() = state.threads.iter().map(|t| t.frames.len()).collect();
+                    }
+                    match render(&state) {
+                        Ok(r) => {
+                            if slot == 0 {
+                                probe("e4.rendered_all");
+                                if let Err(e) = serde_json::from_slice::<serde_json::Value>(&r.json) {
+                                    problems.borrow_mut().2 = Some(format!("compact JSON does not parse: {e}"));
+                                }
+                                if let Err(e) = serde_json::from_slice::<serde_json::Value>(&r.json_pretty) {
+                                    problems.borrow_mut().2 = Some(format!("pretty JSON does not parse: {e}"));
+                                }
+                                if let Some((fail_at, short)) = writer_plan {
+                                    probe("e4.writer_fault");
+                                    for which in 0..4 {
+                                        let mut w = FailingWriter { fail_at, written: 0, short, calls: 0 };
+                                        let total = [r.json.len(), r.json_pretty.len(), r.text.len(), r.brief.len()][which];
+                                        let ok = match which {
+                                            0 => state.print_json(&mut w, false).is_ok(),
+                                            1 => state.print_json(&mut w, true).is_ok(),
+                                            2 => state.print(&mut w).is_ok(),
+                                            _ => state.print_brief(&mut w).is_ok(),
+                                        };
+                                        if ok && total > fail_at {
+                                            problems.borrow_mut().1 = Some("rendering reported success although the writer failed".to_string());
+                                        }
+                                    }
+                                }
+                            }
+                            outputs.borrow_mut()[slot] = Some(r);
+                        }
+                        Err(e) => {
+                            problems.borrow_mut().0 = Some(e);
+                            outputs.borrow_mut()[slot] = Some(Renderings {
+                                status: "render-error".into(),
+                                json: vec![],
+                                json_pretty: vec![],
+                                text: vec![],
+                                brief: vec![],
+                            });
+                        }
+                    }
+                }
+                Err(e) => {
+                    outputs.borrow_mut()[slot] = Some(Renderings {
+                        status: format!("process-error:{}", e.name()),
+                        json: vec![],
+                        json_pretty: vec![],
+                        text: vec![],
+                        brief: vec![],
+                    });
+                }
+            }
+        });
+        task_ids.push(id);
+    }
+    // C03: a companion user of the same symbolizer may be cancelled mid-way
+    let cancel_at = if mode.faults && mode.companions > 0 && chance("e4.cancel_companion", 1, 2) { Some(1 + ch("e4.cancel_at", 40) as u64) } else { None };
+    let mut cancelled = false;
+    simkit::alloc::reset_peak();
+    let base_live = simkit::alloc::live();
+    let stop = loop {
+        match ex.step() {
+            Ok(_) => {
+                if let Some(c) = cancel_at {
+                    let t = *task_ids.last().unwrap();
+                    if !cancelled && !ex.is_done(t) && ex.task_polls(t) >= c {
+                        ex.cancel(t);
+                        cancelled = true;
+                    }
+                }
+            }
+            Err(s) => break s,
+        }
+    };
+    let peak = simkit::alloc::peak() - base_live;
+    let requests = if shared.use_http { reqwest::sim::request_count() } else { calls.load(Ordering::SeqCst) as usize };
+    if shared.use_http {
+        supply_faults += reqwest::sim::snapshots().iter().filter(|s| s.saw_err || s.timed_out || s.head_code != Some(200) || s.planned_end != BodyEnd::Clean).count() as u32;
+        reqwest::sim::uninstall();
+    }
+    let outs: Vec<Renderings> = outputs
+        .borrow()
+        .iter()
+        .enumerate()
+        .filter(|(i, _)| !(cancelled && *i == mode.companions as usize))
+        .map(|(_, o)| {
+            o.clone().unwrap_or(Renderings {
+                status: "unfinished".into(),
+                json: vec![],
+                json_pretty: vec![],
+                text: vec![],
+                brief: vec![],
+            })
+        })
+        .collect();
+    let p = problems.borrow().clone();
+    let frames_v: Vec<usize> = frames.borrow().clone();
+    ExecOut {
+        outputs: outs,
+        frames: frames_v,
+        stop: match stop {
+            Stop::AllDone => "done".into(),
+            Stop::Deadlock(t) => format!("deadlock({} tasks)", t.len()),
+            Stop::Budget => "budget".into(),
+        },
+        steps: ex.steps,
+        peak_bytes: peak,
+        fill_calls: provider.fill_calls.load(Ordering::SeqCst),
+        walk_calls: provider.walk_calls.load(Ordering::SeqCst),
+        requests,
+        render_problem: p.0,
+        writer_problem: p.1,
+        json_problem: p.2,
+        supply_faults,
+        cancelled_companion: cancelled,
+    }
+}
+
+fn first_diff(a: &[u8], b: &[u8]) -> String {
+    let n = a.iter().zip(b.iter()).position(|(x, y)| x != y).unwrap_or(a.len().min(b.len()));
+    // name the JSON key / text line around the difference rather than offsets (stable signature)
+    let ctx = |s: &[u8]| -> String {
+        let start = s[..n.min(s.len())].iter().rposition(|&c| c == b'\n' || c == b'{' || c == b',').map(|i| i + 1).unwrap_or(0);
+        let end = (n + 1).min(s.len());
+        let seg = String::from_utf8_lossy(&s[start..end]).to_string();
+        let key: String = seg.chars().filter(|c| !c.is_ascii_digit()).take(60).collect();
+        key.trim().to_string()
+    };
+    format!("near `{}`", ctx(a))
+}
+
+// ---------------------------------------------------------------------------------------------
+// C13
+
+pub fn run_c13() -> Outcome {
+    let many = true;
+    let use_http = chance("c13.http", 1, 4);
+    let world = dumpgen::gen_world(&WorldOpts {
+        max_threads: 8,
+        many_threads: many,
+        adversarial: chance("c13.adversarial", 1, 4),
+        need_debug_ids: use_http,
+        hostile_symbols: false,
+    });
+    let shared = Shared {
+        dump: Arc::new(world.dump.clone()),
+        modules: Arc::new(world.modules.clone()),
+        options: ch("c13.options", 3) as u8,
+        use_http,
+    };
+    let nexec = 3 + ch("c13.nexec", 4) as usize;
+    let companions = ch("c13.companions", 3);
+    let stack_budget = world.total_stack_bytes;
+    let nthreads = world.threads.len() as u64;
+    let mut digests: Vec<u64> = Vec::new();
+    let mut baseline: Option<ExecOut> = None;
+    let option_name = ["stable_basic", "stable_all", "unstable_all"][shared.options as usize % 3];
+    let mut info = json!({"world": world.describe, "options": option_name, "supplier": if use_http { "HttpSymbolSupplier over reqwest-sim" } else { "GatedSupplier" }, "executions": nexec, "companions": companions});
+    let mut exec_info = Vec::new();
+    let mut diff_note: Option<serde_json::Value> = None;
+    let result = (|| -> simkit::Check {
+        for i in 0..nexec {
+            let tape = if i == 0 {
+                Tape::replay(vec![])
+            } else {
+                Tape::generate(ch("c13.exec_seed", u32::MAX) as u64 | ((i as u64) << 32))
+            };
+            let sh = shared.clone();
+            let mode = ExecMode { faults: false, companions: if i == 0 { 0 } else { companions } };
+            let verbose = simkit::with_ctx(|c| c.verbose);
+            let rep = run_sub(tape, verbose, move || execute(sh, mode, stack_budget, nthreads));
+            for (k, v) in &rep.probes {
+                simkit::probe_add(k, *v);
+            }
+            simkit::ctx::add_sub_time(rep.sim_ns, rep.events);
+            for l in rep.log.iter().take(120) {
+                simkit::log_line(|| format!("[exec {i}] {l}"));
+            }
+            let out = match rep.value {
+                Ok(o) => o,
+                Err(v) => {
+                    // a panic or budget trip inside an execution is C03's subject, but it also
+                    // breaks "always yields": report it under its own oracle
+                    return Err(Violation::new(format!("c13.execution_failed/{}", v.oracle), v.detail));
+                }
+            };
+            digests.push(rep.digest);
+            exec_info.push(json!({"execution": i, "steps": out.steps, "supplier_calls_or_requests": out.requests, "status": out.outputs[0].status, "json_len": out.outputs[0].json.len(), "trace_digest": format!("{:016x}", rep.digest)}));
+            simkit::ensure!(out.stop == "done", "c13.not_finished", "an execution ended with {}", out.stop);
+            // companions inside one execution must agree with the main task
+            for (ci, c) in out.outputs.iter().enumerate().skip(1) {
+                if c != &out.outputs[0] {
+                    diff_note = Some(diff_values(&out.outputs[0], c));
+                    return Err(mismatch_violation("c13.companion_differs", "two concurrent processings of the same dump through one symbolizer rendered differently", &shared.modules, &out.outputs[0], c));
+                }
+                let _ = ci;
+            }
+            match &baseline {
+                None => baseline = Some(out),
+                Some(b) => {
+                    if out.outputs[0] != b.outputs[0] {
+                        diff_note = Some(diff_values(&b.outputs[0], &out.outputs[0]));
+                        return Err(mismatch_violation("c13.output_differs", "the same dump and symbols rendered differently under another schedule / hash seed", &shared.modules, &b.outputs[0], &out.outputs[0]));
+                    }
+                }
+            }
+        }
+        Ok(())
+    })();
+    info["executions_detail"] = json!(exec_info);
+    if let Some(d) = diff_note {
+        info["difference"] = d;
+    }
+    let mut d = digests.clone();
+    d.sort();
+    d.dedup();
+    if d.len() >= 2 {
+        probe("e4.schedules_differ");
+    }
+    let mut ds = digests.clone();
+    ds.sort();
+    let key = simkit::rng::mix(&[crate::common::fnv(&world.dump), crate::common::fnv(&ds.iter().flat_map(|x| x.to_le_bytes()).collect::<Vec<u8>>())]);
+    Outcome {
+        result,
+        nontrivial: world.threads.len() >= 2 && d.len() >= 2,
+        key,
+        info,
+    }
+}
+
+fn json_diff_path(a: &serde_json::Value, b: &serde_json::Value, path: &str) -> Option<String> {
+    use serde_json::Value;
+    match (a, b) {
+        (Value::Object(x), Value::Object(y)) => {
+            let mut keys: Vec<&String> = x.keys().chain(y.keys()).collect();
+            keys.sort();
+            keys.dedup();
+            for k in keys {
+                match (x.get(k), y.get(k)) {
+                    (Some(p), Some(q)) => {
+                        if let Some(d) = json_diff_path(p, q, &format!("{path}.{k}")) {
+                            return Some(d);
+                        }
+                    }
+                    _ => return Some(format!("{path}.{k} (present in one only)")),
+                }
+            }
+            // same content; maybe different key order
+            if x.keys().ne(y.keys()) {
+                return Some(format!("{path} (key order)"));
+            }
+            None
+        }
+        (Value::Array(x), Value::Array(y)) => {
+            if x.len() != y.len() {
+                return Some(format!("{path}[] (length)"));
+            }
+            for (p, q) in x.iter().zip(y.iter()) {
+                if let Some(d) = json_diff_path(p, q, &format!("{path}[]")) {
+                    return Some(d);
+                }
+            }
+            None
+        }
+        (p, q) => {
+            if p == q {
+                None
+            } else {
+                Some(path.to_string())
+            }
+        }
+    }
+}
+
+fn value_at<'a>(v: &'a serde_json::Value, b: &'a serde_json::Value, path: &mut Vec<String>) -> Option<(serde_json::Value, serde_json::Value)> {
+    use serde_json::Value;
+    match (v, b) {
+        (Value::Object(x), Value::Object(y)) => {
+            for (k, p) in x {
+                match y.get(k) {
+                    Some(q) => {
+                        path.push(k.clone());
+                        if let Some(r) = value_at(p, q, path) {
+                            return Some(r);
+                        }
+                        path.pop();
+                    }
+                    None => return Some((p.clone(), Value::Null)),
+                }
+            }
+            None
+        }
+        (Value::Array(x), Value::Array(y)) => {
+            if x.len() != y.len() {
+                return Some((json!(x.len()), json!(y.len())));
+            }
+            for (i, (p, q)) in x.iter().zip(y.iter()).enumerate() {
+                path.push(i.to_string());
+                if let Some(r) = value_at(p, q, path) {
+                    return Some(r);
+                }
+                path.pop();
+            }
+            None
+        }
+        (p, q) => {
+            if p == q {
+                None
+            } else {
+                Some((p.clone(), q.clone()))
+            }
+        }
+    }
+}
+
+fn diff_values(a: &Renderings, b: &Renderings) -> serde_json::Value {
+    if let (Ok(x), Ok(y)) = (serde_json::from_slice::<serde_json::Value>(&a.json), serde_json::from_slice::<serde_json::Value>(&b.json)) {
+        let mut path = Vec::new();
+        if let Some((p, q)) = value_at(&x, &y, &mut path) {
+            let t = |v: serde_json::Value| -> String { v.to_string().chars().take(200).collect() };
+            return json!({"path": path.join("."), "baseline": t(p), "other": t(q), "symbol_stats_baseline": x.get("modules").map(|m| m.to_string().chars().take(600).collect::<String>()), "symbol_stats_other": y.get("modules").map(|m| m.to_string().chars().take(600).collect::<String>())});
+        }
+    }
+    json!(null)
+}
+
+/// Leaf names shared by two or more modules of the world.
+fn duplicate_leaves(mods: &[ModSpec]) -> Vec<String> {
+    let mut seen: BTreeMap<String, u32> = BTreeMap::new();
+    for m in mods {
+        *seen.entry(crate::common::leaf(&m.code_file).to_string()).or_insert(0) += 1;
+    }
+    seen.into_iter().filter(|(_, n)| *n > 1).map(|(k, _)| k).collect()
+}
+
+/// The per-module symbol statistics of same-named modules removed (JSON renderings only; the
+/// text renderings do not contain them).
+fn mask_same_leaf_stats(r: &Renderings, dups: &[String]) -> Option<(serde_json::Value, serde_json::Value, Vec<u8>, Vec<u8>)> {
+    let strip = |bytes: &[u8]| -> Option<serde_json::Value> {
+        let mut v: serde_json::Value = serde_json::from_slice(bytes).ok()?;
+        if let Some(mods) = v.get_mut("modules").and_then(|m| m.as_array_mut()) {
+            for m in mods {
+                let is_dup = m.get("filename").and_then(|f| f.as_str()).map(|f| dups.iter().any(|d| d == f)).unwrap_or(false);
+                if is_dup {
+                    if let Some(o) = m.as_object_mut() {
+                        for k in ["missing_symbols", "loaded_symbols", "corrupt_symbols", "symbol_url", "debug_file", "debug_id"] {
+                            o.remove(k);
+                        }
+                    }
+                }
+            }
+        }
+        Some(v)
+    };
+    Some((strip(&r.json)?, strip(&r.json_pretty)?, r.text.clone(), r.brief.clone()))
+}
+
+/// Classify a rendering mismatch.  The one listed known finding (statistics of same-named
+/// modules follow the completion order) gets its own fixed signature *only* when nothing else
+/// differs.
+fn mismatch_violation(oracle: &str, what: &str, mods: &[ModSpec], a: &Renderings, b: &Renderings) -> Violation {
+    let dups = duplicate_leaves(mods);
+    if !dups.is_empty() && a.status == b.status {
+        if let (Some(x), Some(y)) = (mask_same_leaf_stats(a, &dups), mask_same_leaf_stats(b, &dups)) {
+            if x == y {
+                return Violation::new(
+                    "c13.same_leaf_symbol_stats",
+                    "two modules share a file name: the per-module symbol statistics in the JSON report (symbol_url / loaded / missing / corrupt, looked-up debug info) are those of whichever module's lookup finished last",
+                );
+            }
+        }
+    }
+    Violation::new(oracle, format!("{what} ({})", which_differs(a, b)))
+}
+
+fn which_differs(a: &Renderings, b: &Renderings) -> String {
+    if a.status != b.status {
+        return format!("status {} vs {}", a.status, b.status);
+    }
+    if a.json != b.json {
+        if let (Ok(x), Ok(y)) = (serde_json::from_slice::<serde_json::Value>(&a.json), serde_json::from_slice::<serde_json::Value>(&b.json)) {
+            if let Some(p) = json_diff_path(&x, &y, "$") {
+                return format!("JSON differs at {p}");
+            }
+        }
+        return format!("JSON differs {}", first_diff(&a.json, &b.json));
+    }
+    if a.json_pretty != b.json_pretty {
+        return format!("pretty JSON differs {}", first_diff(&a.json_pretty, &b.json_pretty));
+    }
+    if a.text != b.text {
+        return format!("text report differs {}", first_diff(&a.text, &b.text));
+    }
+    if a.brief != b.brief {
+        return format!("brief text differs {}", first_diff(&a.brief, &b.brief));
+    }
+    "identical".into()
+}
+
+// ---------------------------------------------------------------------------------------------
+// C03
+
+pub fn run_c03() -> Outcome {
+    let use_http = chance("c03.http", 1, 3);
+    let mut world: World = dumpgen::gen_world(&WorldOpts {
+        max_threads: 6,
+        many_threads: true,
+        adversarial: true,
+        need_debug_ids: use_http,
+        hostile_symbols: true,
+    });
+    let mut faults: Vec<String> = Vec::new();
+    let storage = if chance("c03.storage_fault", 1, 3) {
+        let k = dumpgen::storage_fault(&mut world.dump);
+        probe("e4.storage_fault");
+        faults.push(format!("storage: {k}"));
+        true
+    } else {
+        false
+    };
+    for m in &world.modules {
+        if m.sym_kind == "corrupted" || m.sym_kind == "random grammar" {
+            faults.push(format!("symbols: {}", m.sym_kind));
+        }
+    }
+    if world.describe["threads"].as_array().map(|a| a.iter().any(|t| matches!(t["shape"].as_str(), Some("cyclic frame pointer" | "descending frame pointer" | "sp extreme" | "fp extreme")))).unwrap_or(false) {
+        faults.push("adversarial stack shape".into());
+    }
+    if world.describe["modules"].as_array().is_some() && world.arch == dumpgen::Arch::X86 {
+        probe("e4.stack_win");
+    }
+    let shared = Shared {
+        dump: Arc::new(world.dump.clone()),
+        modules: Arc::new(world.modules.clone()),
+        options: ch("c03.options", 3) as u8,
+        use_http,
+    };
+    // budgets come from what the processor will actually see: the parsed (possibly damaged) dump
+    let (stack_budget, nthreads, max_region) = measure(&world.dump, &world);
+    let companions = ch("c03.companions", 2);
+    let sym_total: usize = world.modules.iter().map(|m| m.sym.as_ref().map(|s| s.len()).unwrap_or(0)).sum();
+    // A walked frame carries a full CPU context (0.7-1.3 KB) and is rendered four times; a walk
+    // may legitimately yield one frame per stack byte, so the budget is generous per input
+    // byte — the point is to catch gigabytes demanded by kilobytes.
+    let mem_budget: isize = (256 << 20) + 4096 * (1 + companions as isize) * (world.dump.len() + sym_total) as isize;
+    // hard cap: a runaway allocation aborts the worker, the supervisor attributes it to this run
+    let tape = Tape::generate(ch("c03.exec_seed", u32::MAX) as u64);
+    let sh = shared.clone();
+    let verbose = simkit::with_ctx(|c| c.verbose);
+    let rep = run_sub(tape, verbose, move || {
+        simkit::alloc::set_cap(4usize << 30);
+        execute(sh, ExecMode { faults: true, companions }, stack_budget, nthreads)
+    });
+    for (k, v) in &rep.probes {
+        simkit::probe_add(k, *v);
+    }
+    simkit::ctx::add_sub_time(rep.sim_ns, rep.events);
+    for l in rep.log.iter().take(200) {
+        simkit::log_line(|| format!("[exec] {l}"));
+    }
+    let option_name = ["stable_basic", "stable_all", "unstable_all"][shared.options as usize % 3];
+    let mut info = json!({"world": world.describe, "options": option_name, "supplier": if use_http { "HttpSymbolSupplier over reqwest-sim" } else { "GatedSupplier" }, "faults": faults, "companions": companions});
+    let mut accepted = false;
+    let mut supply_faults = 0;
+    let result = (|| -> simkit::Check {
+        let out = match rep.value {
+            Ok(o) => o,
+            Err(v) => return Err(v), // panic (oracle `panic`) or budget trip
+        };
+        supply_faults = out.supply_faults;
+        if supply_faults > 0 {
+            probe("e4.supply_fault");
+        }
+        info["execution"] = json!({"steps": out.steps, "status": out.outputs[0].status, "frames_per_thread": out.frames.iter().take(12).collect::<Vec<_>>(), "fill_symbol_calls": out.fill_calls, "walk_frame_calls": out.walk_calls, "peak_heap_bytes": out.peak_bytes, "requests": out.requests, "supply_faults": out.supply_faults, "cancelled_companion": out.cancelled_companion});
+        // 2. bounded liveness
+        simkit::ensure!(out.stop == "done", "c03.not_finished", "processing ended with {} (steps {})", out.stop, if out.steps > 1_000_000 { "> 10^6" } else { "few" });
+        let st = &out.outputs[0].status;
+        accepted = st == "ok";
+        // 5. result is Ok(state) or Err(ProcessError)/read error; Ok always renders
+        if let Some(p) = &out.render_problem {
+            return Err(Violation::new("c03.render_failed", strip_digits(p)));
+        }
+        if let Some(p) = &out.json_problem {
+            return Err(Violation::new("c03.json_invalid", strip_digits(p)));
+        }
+        if let Some(p) = &out.writer_problem {
+            return Err(Violation::new("c03.writer_error_swallowed", p.clone()));
+        }
+        simkit::ensure!(st == "ok" || st.starts_with("read-error") || st.starts_with("process-error"), "c03.status", "unexpected status {}", st);
+        // 3. frame bound
+        for (ti, &n) in out.frames.iter().enumerate() {
+            let bound = if storage { max_region + 2 } else { world.threads.get(ti).map(|t| region_bound(&world, t)).unwrap_or(max_region) + 2 };
+            simkit::ensure!(n as u64 <= bound, "c03.frame_bound", "a thread was walked for more frames than its stack memory has bytes (plus two)");
+        }
+        // 4. memory budget
+        simkit::ensure!(out.peak_bytes <= mem_budget, "c03.memory_budget", "peak live heap exceeded 256 MiB + 4096 x input bytes per concurrent processing");
+        Ok(())
+    })();
+    let fault_desc = format!("{:?}/{}", faults, supply_faults);
+    let key = simkit::rng::mix(&[crate::common::fnv(&world.dump), crate::common::fnv(fault_desc.as_bytes()), rep.digest]);
+    Outcome {
+        result,
+        nontrivial: accepted && (!faults.is_empty() || supply_faults > 0),
+        key,
+        info,
+    }
+}
+
+fn strip_digits(s: &str) -> String {
+    s.chars().map(|c| if c.is_ascii_digit() { '#' } else { c }).collect()
+}
+
+/// What the processor can use as a thread's stack: its own stack memory or the region that
+/// contains its stack pointer.
+fn region_bound(world: &World, t: &dumpgen::ThreadSpec) -> u64 {
+    let mut b = t.stack_len as u64;
+    for o in &world.threads {
+        let end = o.stack_base.wrapping_add(o.stack_len as u64);
+        let inside = if end >= o.stack_base { t.sp >= o.stack_base && t.sp < end } else { t.sp >= o.stack_base || t.sp < end };
+        if inside {
+            b = b.max(o.stack_len as u64);
+        }
+    }
+    b.max(32)
+}
+
+/// (sum of usable stack bytes, thread count, largest memory region) of the dump as parsed.
+fn measure(bytes: &[u8], world: &World) -> (u64, u64, u64) {
+    let mut total = world.total_stack_bytes;
+    let mut n = world.threads.len() as u64;
+    let mut max_region = world.threads.iter().map(|t| t.stack_len as u64).max().unwrap_or(0).max(32);
+    if let Ok(d) = simkit::runner::catch(|| Minidump::read(bytes.to_vec())) {
+        if let Ok(d) = d {
+            if let Ok(Some(mem)) = simkit::runner::catch(|| d.get_memory()) {
+                let sizes: Vec<u64> = mem.iter().map(|m| m.size()).collect();
+                max_region = max_region.max(sizes.iter().copied().max().unwrap_or(0));
+            }
+            if let Ok(Ok(tl)) = simkit::runner::catch(|| d.get_stream::<minidump::MinidumpThreadList>()) {
+                n = n.max(tl.threads.len() as u64);
+                total = total.max(tl.threads.len() as u64 * max_region);
+            }
+        }
+    }
+    (total, n, max_region)
+}
